@@ -310,8 +310,9 @@ class PFITSReader(Filterbank):
             raise ValueError(msg)
 
         startsub, startsamp = divmod(start, self.sub_hdr.subint_samples)
+        # The request may start inside a sub-integration
         nsubs = (
-            nsamps + self.sub_hdr.subint_samples - 1
+            startsamp + nsamps + self.sub_hdr.subint_samples - 1
         ) // self.sub_hdr.subint_samples
         data = self._fitsfile.read_subints(startsub, nsubs)
         data = data[startsamp : startsamp + nsamps]
